@@ -88,6 +88,16 @@ def gen(rng, tier):
         s = Scenario([gens.parse_cmd(0, b"/p/f.conf", b"\n".join(lines) + b"\n", rng.choice([b"=", b":="]), b"#", True, False), "getall 0", "dump 0"],
                      [True, True, True], tags=("python",))
         out.append(s)
+    # continuation lines of any length (python style: indented lines; join: lines without delimiter below one of several
+    # definitions), with delimiters and comment characters far behind the start of the line
+    for L in (100, 8000, 8189, 8190, 8191, 8192, 8193, 9000, 20000):
+        longl = b"w" * (L - 24) + b" tail = x # not cut off"
+        content = b"key = l1\n  " + longl + b"\n\tl3\nnext=1\n"
+        out.append(Scenario([gens.parse_cmd(0, b"/p/f.conf", content, b"=", b"#", True, False), "getall 0", "dump 0"], [True, True, True], tags=("python-long",)))
+        longj = b"w" * (L - 12) + b" end-of-line"
+        content = b"opt=one\nopt=two\n  " + longj + b"\nother=1\nopt=three\n " + longj + b"\n"
+        out.append(Scenario([gens.parse_cmd(0, b"/j/f.conf", content, b"=", b"#", False, True), "getall 0", "dump 0"], [True, True, True], tags=("join-long",)))
+        out.append(Scenario([gens.parse_cmd(0, b"/j/f.conf", content, b"=", b"#", False, False), "getall 0", "dump 0"], [True, True, True], tags=("nojoin-long",)))
     # the options travel with the handle into EVERY file of a layered read: main file and drop-ins alike
     for _ in range(n // 2):
         st = laylib.setup(rng, mode=rng.choice([1, 2, 3]), popts=True)
